@@ -179,7 +179,10 @@ class LayerImpl:
         if self.kind == "serial":
             self.conns = [ProbeConnection(1, (4,), (3,), B, self.log)]
             self.neurs = [ProbeNeuron(1, (3,), B, self.log)]
-            self.layer = Serial(self.conns[0], self.neurs[0], transform=_tr(self.tr, PT[0]))
+            # with transforms configured the layer is also given its own component names (the defaults are both
+            # "serial", which hides a mix-up of the connection's and the neuron's name)
+            names = dict(connection_name="cx", neuron_name="ny") if self.tr else {}
+            self.layer = Serial(self.conns[0], self.neurs[0], transform=_tr(self.tr, PT[0]), **names)
             self.extshape = [(4,)]
         elif self.kind == "biclique":
             self.conns = [ProbeConnection(c + 1, (c + 2,), (3,), B, self.log) for c in range(self.nc)]
@@ -240,19 +243,29 @@ class LayerImpl:
         fb_was_none = self.kind == "recurrent" and self.layer.feedback_spikes is None
         ins = [None if v == 0 else torch.full((B, *self.extshape[i]), float(v), dtype=F64) for i, v in enumerate(x)]
         if self.kind == "serial":
-            out, mid = self.layer(ins[0], capture_intermediate=True)
+            out, mid = self.layer(ins[0], connection_kwargs={"tag": 201}, neuron_kwargs={"tag": 101},
+                                  capture_intermediate=True)
             ys, mids = [out], [mid]
         elif self.kind == "biclique":
             outs, mid = self.layer({f"c{i + 1}": (t,) for i, t in enumerate(ins) if t is not None},
+                                   connection_kwargs={f"c{c + 1}": {"tag": 201 + c} for c in range(self.nc)},
+                                   neuron_kwargs={f"n{n + 1}": {"tag": 101 + n} for n in range(self.nn)},
                                    capture_intermediate=True)
             if set(outs) != {f"n{n + 1}" for n in range(self.nn)}:
                 return {"t": "err", "e": "OutputKeys"}
             ys = [outs[f"n{n + 1}"] for n in range(self.nn)]
             mids = [mid.get(f"c{c + 1}") for c in range(self.nc)]
         else:
-            (y1, y2), mid = self.layer(ins[0], capture_intermediate=True)
+            (y1, y2), mid = self.layer(ins[0], feedfwd_connection_kwargs={"tag": 201}, lateral_connection_kwargs={"tag": 202},
+                                       feedback_connection_kwargs={"tag": 203}, feedfwd_neuron_kwargs={"tag": 101},
+                                       feedback_neuron_kwargs={"tag": 102}, capture_intermediate=True)
             ys = [y1, y2]
             mids = [mid.get("feedfwd"), mid.get("lateral"), mid.get("feedback")]
+        # keyword arguments are routed to the component they were given for, and to no other
+        for rec in self.log:
+            want = {"tag": (100 if rec[0] == "n" else 200) + rec[1]}
+            if rec[-1] != want:
+                return {"t": "err", "e": "KwargRouting"}
         nin = [0] * self.nn
         cin = [0] * self.nc
         for rec in self.log:
